@@ -204,10 +204,10 @@ class OpGen(object):
         for i, t1 in enumerate(poss):
             for t2 in poss[i + 1:]:
                 for f1 in t1.fields:
-                    if f1.args or s.kind(S.unwrap(f1.type)) not in ("scalar", "enum"):
+                    if f1.args or s.kind(S.unwrap(f1.type)) not in ("scalar", "enum") or getattr(f1, "homonym", False):
                         continue
                     for f2 in t2.fields:
-                        if not f2.args and f2.name != f1.name and f2.type == f1.type:
+                        if not f2.args and f2.name != f1.name and f2.type == f1.type and not getattr(f2, "homonym", False):
                             out.append((t1.name, f1, t2.name, f2))
         return out
 
@@ -229,7 +229,7 @@ class OpGen(object):
         s, rng = self.s, self.rng
         st = s.types[scope]
         sels = []
-        fields = list(st.fields) if st.kind in ("object", "interface") else []
+        fields = [f for f in st.fields if not getattr(f, "homonym", False)] if st.kind in ("object", "interface") else []
         if depth >= self.max_depth:
             fields = [f for f in fields if s.kind(S.unwrap(f.type)) not in ("object", "interface", "union")]
         count = n if n is not None else rng.randint(1, 4 if depth < 2 else 2)
@@ -364,7 +364,7 @@ class OpGen(object):
         self.var_counter = 0      # variable names are reused by the other operations of the document
         self.cur_frags = [] if kind != "subscription" else None
         if kind == "subscription":
-            f = rng.choice(s.types[root].fields)
+            f = rng.choice([x for x in s.types[root].fields if not getattr(x, "homonym", False)])
             sel = [self.make_field(f, root, 0)]
             sel[0].directives = [d for d in sel[0].directives if d[0] not in ("skip", "include")]
         else:
